@@ -201,6 +201,12 @@ func boundaryCases() []GCase {
 		h := []GBlock{{100, 10 + i%2}, {99, 3}, {98, 4}}
 		return obsWith(nil, []GProp{prop(i % 3)}, h)
 	})})
+	// proposals that already sit on the quorum height (same number, another hash: fork at the tip / malicious
+	// oracle) or carry the quorum block itself must still be re-stamped with the quorum block
+	add(GCase{Family: "proposal-at-quorum-height-other-hash", N: 4, F: 1, Seq: 76, Digest: 1, Obs: nObs(4, func(i int) GObs {
+		h := []GBlock{{100, 10}, {99, 3}}
+		return obsWith(nil, []GProp{{Kind: 1, Upk: 95, Log: 45 + i, Blk: 100, Hash: 777 + i, ExtBlk: 5}, {Kind: 0, Upk: 96 + i, Blk: 100, Hash: 10}, {Kind: 0, Upk: 90 + i, Blk: 99, Hash: 3}}, h)
+	})})
 	add(GCase{Family: "block-quorum-exactly-f+1", N: 7, F: 2, Seq: 71, Digest: 1, Obs: nObs(7, func(i int) GObs {
 		h := []GBlock{{Num: uint64(100 + i), Hash: 20 + i}, {99, 3}}
 		if i >= 3 {
@@ -409,6 +415,14 @@ func randomCase(r *Rng) GCase {
 			usedp[key] = true
 			q := p
 			q.Blk, q.Hash = uint64(r.Intn(100)), r.Intn(6)
+			if r.Chance(1, 2) {
+				// sits on a height of the observed chain, with its hash or another one
+				b := mainc[r.Intn(len(mainc))]
+				q.Blk, q.Hash = b.Num, b.Hash
+				if r.Chance(1, 2) {
+					q.Hash += 500
+				}
+			}
 			o.Props = append(o.Props, q)
 		}
 		h := mainc
